@@ -177,6 +177,17 @@ Definition delivered_slots (k : kind) : list slot :=
   | KBatch => Gen.C05.submit_batch_delivered_slots
   | KUpload => []
   end.
+(** the message fields the ABI's input NAMES stand for (message_id, deadline, relayer, gas_estimate,
+    fee_args.relayer_fee ...), in the ABI's order; for a batch these define [delivered_slots] *)
+Definition abi_named_slots (k : kind) : list slot :=
+  match k with
+  | KUpdateValset => Gen.C05.update_valset_abi_named_slots
+  | KLogicCall => Gen.C05.logic_call_abi_named_slots
+  | KDeploy => Gen.C05.deploy_contract_abi_named_slots
+  | KHandover => Gen.C05.compass_update_batch_abi_named_slots
+  | KBatch => Gen.C05.submit_batch_delivered_slots
+  | KUpload => []
+  end.
 (** the compass ABI's input types after the leading consensus argument, and the method id *)
 Definition abi_sig (k : kind) : list abity :=
   match k with
